@@ -26,6 +26,7 @@ func c06Spaces(tier string) []pairLeg {
 		add("deep", Deep(true))
 		add("mixed", Mixed())
 		add("large", Large())
+		add("huge", Huge())
 		add("E3", EditStates(3, 4000))
 	} else {
 		add("A6x123", Arr(6, "123"))
@@ -40,6 +41,7 @@ func c06Spaces(tier string) []pairLeg {
 		add("deep", Deep(true))
 		add("mixed", Mixed())
 		add("large", Large())
+		add("huge", Huge())
 		add("E2", EditStates(2, 800))
 	}
 	return legs
@@ -68,7 +70,7 @@ func init() {
 			return []string{"multi-hunk", "single-hunk", "recursed-into-containers", "scalar-array-level"}
 		},
 		Assume: []string{"optimal edit script size = len - LCS on canonical element strings", "the 'larger ones randomly' clause of the quantifier is replaced by complete enumeration over a binary alphabet up to length 8/10"},
-		Budget: budget(4*time.Minute, 40*time.Minute),
+		Budget: budget(7*time.Minute, 40*time.Minute),
 	})
 }
 
